@@ -615,7 +615,15 @@ func (e *Evaluator) evalBinaryExpr(expr *ExprBinary) (*Cell, error) {
 			memberVal.ParentObj = &left.Value
 			return NewCell(memberVal), nil
 		}
-		member.Value.Binding = &left.Value
+		if member.Value.Tag == ValueNativeFn {
+			// bind the receiver in a copy of the method. the method's own cell
+			// is shared by every value with this prototype, so writing the
+			// receiver into it would let a later lookup (in an argument of this
+			// very call, or in another run) redirect this call
+			bound := NewCell(member.Value)
+			bound.Value.Binding = &left.Value
+			return bound, nil
+		}
 
 		return member, nil
 	case LessThan, GreaterThan, EqualEqual, LessEqual, GreaterEqual, BangEqual:
